@@ -157,6 +157,13 @@ var reGenSuffix = regexp.MustCompile(`^(.*)_(\d+)$`)
 // It also returns lab: name -> 1-based index of the first code label
 // (entry/sub/user) with that name.
 func AnnotateRoles(pa *ParsedAsm, scriptNames map[string]bool, userLabels map[string]bool) map[string]interface{} {
+	return AnnotateRolesRaw(pa, scriptNames, userLabels, nil)
+}
+
+var reHoisted = regexp.MustCompile(`^.+_(Text|Movement)_\d+$`)
+
+// AnnotateRolesRaw also marks labels that the author wrote inside raw blocks.
+func AnnotateRolesRaw(pa *ParsedAsm, scriptNames map[string]bool, userLabels map[string]bool, rawLabels map[string]bool) map[string]interface{} {
 	lab := map[string]interface{}{"@": 0}
 	isGen := func(name string) bool {
 		m := reGenSuffix.FindStringSubmatch(name)
@@ -176,6 +183,7 @@ func AnnotateRoles(pa *ParsedAsm, scriptNames map[string]bool, userLabels map[st
 				role = "sub"
 			}
 			ln["role"] = role
+			ln["raw"] = rawLabels[name]
 			if role != "data" {
 				if _, ok := lab[name]; !ok {
 					lab[name] = i + 1
@@ -196,6 +204,13 @@ func AnnotateRoles(pa *ParsedAsm, scriptNames map[string]bool, userLabels map[st
 				}
 			}
 			ln["tgt"] = tgt
+			hrefs := []string{}
+			for _, t := range ln["toks"].([]string)[1:] {
+				if reHoisted.MatchString(t) {
+					hrefs = append(hrefs, t)
+				}
+			}
+			ln["hrefs"] = hrefs
 			ln["gen"] = tgt != "" && isGen(tgt)
 		}
 	}
